@@ -278,6 +278,10 @@ class InterSystemRecurrenceNetwork(InteractingNetworks):
 
         #  Set diagonal of ISRM to zero to avoid self-loops
         ISRM.flat[::self.N + 1] = 0
+
+        #  Keep an already constructed network consistent with the new plots
+        if hasattr(self, "_mut_A"):
+            self.adjacency = ISRM
         return ISRM
 
     def set_fixed_recurrence_rate(self, density):
@@ -310,6 +314,10 @@ class InterSystemRecurrenceNetwork(InteractingNetworks):
 
         #  Set diagonal of ISRM to zero to avoid self-loops
         ISRM.flat[::self.N + 1] = 0
+
+        #  Keep an already constructed network consistent with the new plots
+        if hasattr(self, "_mut_A"):
+            self.adjacency = ISRM
         return ISRM
 
     #
